@@ -134,6 +134,7 @@ inductive Query where
   | max (ax : Option Axis)
   | nzc (ax : Option Axis) (binary : Bool)
   | density
+  | nnz
   | reduce (f : String) (ax : Axis)
   deriving Repr, DecidableEq
 
@@ -239,6 +240,7 @@ def answerF (inp : Input) (f : Rat → Rat → Rat) : Query → Ans
   | .max ax => maxM inp ax
   | .nzc ax b => nzcM inp.t ax b
   | .density => .num (densityM inp)
+  | .nnz => .num (nnzM inp.csr : Rat)
   | .reduce _ ax => reduceM inp.t f ax
 
 def qFun : Query → Rat → Rat → Rat
@@ -333,6 +335,17 @@ def reportM (inp : Input) (qualitative observations : Bool) : Report :=
     sampKeys := if observations then obsKeys else sampKeys
     obsKeys := if observations then sampKeys else obsKeys
     detail := sortKV st.counts }
+
+/-- `repr(table)`: "N x M <class> with K nonzero entries (P% dense)" -/
+structure ReprObs where
+  rows : Nat
+  cols : Nat
+  nnz : Nat
+  pct : Int
+  deriving Repr, DecidableEq
+
+def reprM (inp : Input) : ReprObs :=
+  { rows := inp.t.obs.length, cols := inp.t.samp.length, nnz := nnzM inp.csr, pct := truncZ (100 * densityM inp) }
 
 /-! ### listings and exports -/
 
@@ -437,6 +450,7 @@ def holdsQ (t : Table Rat) (f : Rat → Rat → Rat) : Query → Ans → Bool
   | .nzc none true, .nums xs => xs == [(nnzCells t.rows : Rat)]
   | .nzc none false, .nums xs => xs == [total t.rows]
   | .density, .num x => approx x (specDensity t)
+  | .nnz, .num x => x == (nnzCells t.rows : Rat)
   | .reduce _ ax, a =>
     if t.samp.length = 0 ∨ t.obs.length = 0 then a == .err .tableException
     else (match a with
@@ -544,6 +558,14 @@ def reportAgrees (r : Report) (p : Printed) : Bool :=
   p.detail.map (·.1) == r.detail.map (·.1) &&
   (p.detail.zip r.detail).all (fun pr => printsAs3 pr.2.2 pr.1.2)
 
+def pctEps : Rat := 1 / 1000000000
+
+/-- a percentage printed with `%d` (slack for the binary64 product the code truncates) -/
+def pctOK (d : Rat) (p : Int) : Bool := (p : Rat) ≤ 100 * d + pctEps && 100 * d - pctEps < (p : Rat) + 1
+
+def holdsRepr (t : Table Rat) (r : ReprObs) : Bool :=
+  r.rows == t.obs.length && r.cols == t.samp.length && r.nnz == nnzCells t.rows && pctOK (specDensity t) r.pct
+
 def holdsIds (t : Table Rat) (observations : Bool) (listed : List Id) : Bool :=
   listed == (if observations then t.obs else t.samp)
 
@@ -615,6 +637,7 @@ def asQuery (j : Json) : R Query := do
   | "max" => pure (.max (← asOptAxis (← fld j "axis")))
   | "nzc" => pure (.nzc (← asOptAxis (← fld j "axis")) (← boolF j "binary"))
   | "density" => pure .density
+  | "nnz" => pure .nnz
   | "reduce" => pure (.reduce (← strF j "f") (← axisF j "axis"))
   | s => .error s!"bad query {s}"
 
@@ -712,7 +735,7 @@ def headToJson (h : HeadObs) : Json :=
 def result (v : Verdict) (agree : Bool) (model : Json) (extra : List (String × Json) := []) : Json :=
   Json.mkObj (verdictToJson v ++ [("agree", .bool agree), ("model", model)] ++ extra)
 
-/-- requests: {"op": "queries"|"nonzero"|"stats"|"report"|"ids"|"head"|"frame"|"mdframe", …} -/
+/-- requests: {"op": "queries"|"repr"|"nonzero"|"stats"|"report"|"ids"|"head"|"frame"|"mdframe", …} -/
 def handle (req : Json) : R Json := do
   match (← strF req "op") with
   | "queries" =>
@@ -756,6 +779,15 @@ def handle (req : Json) : R Json := do
     pure (result (chk "report" (holdsReport inp.t q o p)) (reportAgrees m p) (reportToJson m)
       [("layout_ok", .bool inp.okb),
        ("model_holds", .bool (holdsReport inp.t q o (m.printed p.std) || !printsAsStd m.variance p.std))])
+  | "repr" =>
+    let inp ← asInput (← fld req "input")
+    let o ← fld req "repr"
+    let r : ReprObs := { rows := (← natF o "rows"), cols := (← natF o "cols"), nnz := (← natF o "nnz"), pct := (← intF o "pct") }
+    let m := reprM inp
+    let agree := r.rows == m.rows && r.cols == m.cols && r.nnz == m.nnz && pctOK (densityM inp) r.pct
+    pure (result (chk "repr" (holdsRepr inp.t r)) agree
+      (Json.mkObj [("rows", toJson m.rows), ("cols", toJson m.cols), ("nnz", toJson m.nnz), ("pct", toJson m.pct)])
+      [("layout_ok", .bool inp.okb), ("model_holds", .bool (holdsRepr inp.t m))])
   | "ids" =>
     let t ← asTable (← fld req "table")
     let o ← boolF req "observations"
